@@ -224,10 +224,12 @@ class C11(ConnProp):
                               b'BREW /c0/bad HTTP/1.1\r\n\r\n', b'GET  /c0/bad HTTP/1.1\r\n\r\n',
                               b'PUT /c0/bad HTTP/1.1\r\nContent-Length: 99999999\r\n\r\n'])
             ops = [[0, 0], [11, 4]]
+            # sometimes the 400 is sent by flush_outgoing_writes (one poll reads the malformed request, then the flush)
+            after_bad = [[6], [8]] if rng.random() < 0.4 else [[11, 6]]
             if split:
-                ops += [[1, 0, goods], [11, 6], [1, 0, bad], [11, 6]]
+                ops += [[1, 0, goods], [11, 6], [1, 0, bad]] + after_bad
             else:
-                ops += [[1, 0, goods + bad], [11, 6]]
+                ops += [[1, 0, goods + bad]] + after_bad
             ops += [[5, 0], [1, 0, b'GET /c0/after HTTP/1.1\r\n\r\n'], [11, 6]] + [[12, 0]] * (k + 1) + [[11, 6], [5, 0]]
             want = ([b'/c0/g%d' % j for j in range(k)] if split else []) + [b'/c0/after']
             out.append(([9, 0, ops], {'kind': 'server-error-then-request', 'k': k, 'split': split,
@@ -401,10 +403,16 @@ class C13(ConnProp):
                 if nn is not None and nn < 0:
                     nn = 0
                 ver = rng.choice([b'HTTP/1.0', b'HTTP/1.1'])
+                badver = rng.random() < 0.06
+                if badver:
+                    # a version token that only resembles a supported one: the request is rejected, no interim response
+                    ver = rng.choice([b'HTTP/1.01', b'HTTP/1.10', b'HTTP/1.11', b'HTTP/1.', b'HTTP/1.1x', b'HTTP/1.00', b'HTTP/2.0', b'HTTP/1.21'])
                 head, body = expect_request(rng, limit, nn, ver, ek)
                 stream += head + body
                 if not stopped:
-                    if 'yes' in ek.split('+') and nn and 0 < nn <= limit:
+                    if badver:
+                        stopped = True
+                    elif 'yes' in ek.split('+') and nn and 0 < nn <= limit:
                         want.append(ver)
                     if nn is not None and nn > limit:
                         stopped = True
